@@ -7,8 +7,10 @@ from .. import cutfind
 from ..core import call_real
 
 ID = "C08"
-LEAN_MODULE = "CKT.Props.C08ConvW"
+LEAN_MODULE = "CKT.Props.C08Gen"
 THEOREMS = [
+    # the model actions are the translated source (harness/translate/actions.py -> Generated/CutActions.lean)
+    "CKT.C07Gen.registered", "CKT.C07Gen.run_eq_model", "CKT.C07Gen.actionList_translated", "CKT.C08Gen.nextStates_translated",
     # T08.4 at specification level (gate cuts): useless cuts can be removed without changing the subcircuits or raising the overhead
     "CKT.C08Spec.conn_prune", "CKT.C08Spec.cost_prune_le", "CKT.C08Spec.prune_no_useless", "CKT.C08Spec.useless_cuts_removable",
     # T08.4 model link (gate cuts): a width-feasible plan without useless cuts is executed step by step by the model (no guard fires), so it is a
@@ -84,6 +86,13 @@ def _family_every_gate():
         out.append(dict(base, nq=2, instrs=[g], width=1))
         out.append(dict(base, nq=3, instrs=[g, {"name": "cx", "qubits": [1, 2]}, {"name": "cs", "qubits": [1, 2]}], width=2))
     return out
+
+
+def regenerate():
+    """the five search actions, translated from cut_finding/cutting_actions.py on every run"""
+    from ..translate import actions
+    from ..core import REPO, LEAN
+    actions.regenerate(REPO, LEAN)
 
 
 def cases(rng, tier):
